@@ -49,4 +49,17 @@ CLAIMED = {
              'conversions for every family pair x {0, mid, n}^2 fractional bits and all 12 integer types + bool, both profiles. The From/LossyFrom admissibility table of '
              'convert.rs is not yet regenerated by the translator (the predicate is stated in Lean by hand).',
         design_ref='7/C04', note=COMMON_NOTE, technique='Lean 4 proof over executable model + differential correspondence'),
+    'C05': dict(
+        text='Theorem SfxProps.C05.holds (full strength, f32 and f64, all 507 layouts): float->fixed gives the grid value nearest to the exact float value (ties to even) under '
+             'the four policies with overflow decided on the rounded value; NaN/infinity are rejected as documented; fixed->float equals the textbook IEEE-754 '
+             'round-to-nearest-even (subnormals, overflow to infinity) and that textbook definition is itself proved nearest/ties-to-even. Four defects found by this check '
+             'were repaired in /repo (top binade/NaN classification, subnormal scale, -0.0). Correspondence: both helper hooks on all layouts + the public API, both profiles.',
+        design_ref='7/C05', note=COMMON_NOTE, technique='Lean 4 proof over executable model + differential correspondence'),
+    'C17': dict(
+        text='Theorem SfxProps.C17.holds: for ALL layouts and operands the iteration count recorded by the model of sqrt/log2/ln/exp/pow/sin/cos/tan is at most 4*width+64 '
+             '(sharper per-function bounds in `sharp`). The model gives the two data-dependent loops fuel (halving: width+1; range reduction: 2 after the repaired remainder step) and '
+             'turns fuel exhaustion into a panic; that this panic is unreachable is part of C12 and is exercised by the correspondence, which compares the hook counter of the real '
+             '(fuel-less) loops with the model count on every request incl. MIN/MAX/1ulp. The unbounded range-reduction loops were repaired in /repo (fix c0749e7).',
+        design_ref='7/C17', note=COMMON_NOTE + ' Hook: thread-local counter incremented in each loop body of transcendental.rs under the guard.',
+        technique='Lean 4 proof (structural tick bounds) over executable model + hook-counter correspondence'),
 }
